@@ -256,4 +256,50 @@ The node is only tested for the prefix `clientCapabilitiesNode`. -/
 def answeredInfo (c : ClientCfg) (queryNode : Str) : Option Info :=
   if queryNode = [] ∨ c.node.isPrefixOf queryNode then some (capabilities c) else none
 
+/-! ### a client over a history: configure, publish presences, answer queries -/
+
+/-- the client as far as capabilities are concerned: the discovery configuration and the `ver` stored in
+`d->clientPresence` (`none` before the first publication) -/
+structure ClientSt (β : Type) where
+  cfg : ClientCfg
+  presenceVer : Option β := none
+
+inductive ClientOp
+  /-- any reconfiguration through the API (`setClientName/Type/Category/CapabilitiesNode/InfoForm`, `addExtension`,
+  `removeExtension`): the configuration afterwards -/
+  | configure (c : ClientCfg)
+  /-- `setClientPresence(p)` / `connectToServer(config, p)` + session start; `derived` = `p` was copied from
+  `clientPresence()` and therefore already carries the previously computed `ver` -/
+  | publish (derived : Bool)
+  /-- a disco#info `get` for this node -/
+  | query (node : Str)
+
+inductive ClientOut (β : Type)
+  /-- an emitted `<presence/>` with `<c ver=…/>` -/
+  | presence (ver : β)
+  /-- the `ver` of the answered info set, `none` = item-not-found -/
+  | answer (ver : Option β)
+  deriving DecidableEq, Repr
+
+/-- `addProperCapability` recomputes the capabilities from the discovery manager at every publication,
+whatever the presence passed in carried -/
+def clientStep {β : Type} (H : Str → β) (s : ClientSt β) : ClientOp → ClientSt β × List (ClientOut β)
+  | .configure c => ({ s with cfg := c }, [])
+  | .publish _ =>
+    let v := advertisedVer H s.cfg
+    ({ s with presenceVer := some v }, [.presence v])
+  | .query n => (s, [.answer ((answeredInfo s.cfg n).map (ver H))])
+
+/-- run a history; every output is recorded together with the configuration in force when it was produced -/
+def clientRun {β : Type} (H : Str → β) (s : ClientSt β) : List ClientOp → ClientSt β × List (ClientCfg × ClientOut β)
+  | [] => (s, [])
+  | op :: ops =>
+    let r1 := clientStep H s op
+    let r2 := clientRun H r1.1 ops
+    (r2.1, r1.2.map (fun o => (s.cfg, o)) ++ r2.2)
+
+def emptyCfg : ClientCfg :=
+  { category := [], type := [], name := [], baseFeatures := [], extFeatures := [], extIdentities := [],
+    infoForm := none, node := [] }
+
 end Qx.C20
